@@ -23,3 +23,6 @@ package tlstcp
 //@
 //@ func (*listener).Close$1
 //@   may_close l.closeQ once
+//@
+//@ func (*listener).Listen$1
+//@   loop 1 ensures !called_since("loop1:head", "Handshake") && !called_since("loop1:head", "handshake") && !called_since("loop1:head", "Read") && !called_since("loop1:head", "ReadFull") && !called_since("loop1:head", "Wait")
